@@ -9,3 +9,9 @@ import BS.Properties.C18
 #print axioms BS.Typecheck.prefixed_result
 #print axioms BS.Typecheck.reduce_result
 #print axioms BS.Typecheck.readerFunc_results
+#print axioms BS.Typecheck.fold_result
+#print axioms BS.Typecheck.flatmap_result
+#print axioms BS.Typecheck.reshuffle_result
+#print axioms BS.Typecheck.repartition_result
+#print axioms BS.Typecheck.writerFunc_result
+#print axioms BS.Typecheck.cogroup_result
